@@ -5,7 +5,8 @@ K   : Lean model (PharmpyModel/C05/{Graph,Model,Matrix}.lean) vs the real
       generated operation sequence: node order and node values of to_dict, edge list,
       _order_compartments / compartment_names, compartmental_matrix entries, amounts,
       zero_order_inputs, eqs (exact rational evaluation at seeded points),
-      central_compartment, dosing_compartments, error class of refused operations.
+      central_compartment, dosing_compartments, error class of refused operations; canonical_ode_rhs as regrouping of
+      the monomials of (M*A+u)[i] by key vs the groups of the reported equation.
 Mon : the property statement on the real objects (independent of the Lean build):
       one consistent order, eqs == M*A+u, M*A+u == inflow - outflow + input computed from
       get_flow, mass balance, from_dict(to_dict(cs)) == cs, to_compartmental_system(eqs)
@@ -82,7 +83,28 @@ def gen_term(rng, i, tag):
     return "KE%d%s*exp(-TH%d%s)" % (i, tag, i, tag)
 
 
-def gen_rate(rng, src, i, shared, to_output=False):
+def gen_amount_rate(rng, i, A, B):
+    """a rate that is polynomial / a power / a square root in the source amount A and possibly in another amount B
+    (second order elimination, dimerisation, TMDD-like products): M*A then has terms in A**2, A**(3/2), A**2*B, ..."""
+    opts = [
+        "KD%d*%s" % (i, A),
+        "CL%d/V%d + KEL%d*%s" % (i, rng.randint(1, 3), i, A),
+        "KQ%d*%s**2" % (i, A),
+        "KR%d*sqrt(%s)" % (i, A),
+        "KA%d + KB%d*%s + KC%d*%s**2" % (i, i, A, i, A),
+        "KD%d*%s/(KM%d + %s)" % (i, A, i, A),
+    ]
+    if B is not None and B != A:
+        opts += ["KON%d*%s" % (i, B), "KX%d*%s*%s" % (i, A, B), "KY%d*%s**2" % (i, B), "KZ%d + KW%d*sqrt(%s)" % (i, i, B)]
+    return rng.choice(opts)
+
+
+def gen_rate(rng, src, i, shared, to_output=False, amts=None):
+    A = (amts or {}).get(src, "A_%s(t)" % src)
+    r = rng.random()
+    if r < 0.16:
+        others = sorted(v for k, v in (amts or {}).items() if k != src)
+        return gen_amount_rate(rng, i, A, rng.choice(others) if others and rng.random() < 0.4 else None)
     r = rng.random()
     # a sum of 2-3 distinct positive terms (a good share of the compartment-to-compartment flows)
     if r < (0.2 if to_output else 0.35):
@@ -90,7 +112,7 @@ def gen_rate(rng, src, i, shared, to_output=False):
         if shared and rng.random() < 0.4:
             terms[0] = rng.choice(["KS", "2*KS"])
         if rng.random() < 0.15:
-            terms.append("VM%d/(KM%d + A_%s(t))" % (i, i, src))
+            terms.append("VM%d/(KM%d + %s)" % (i, i, A))
         return " + ".join(terms)
     if r < 0.365:
         return "K%da - K%db" % (i, i)   # a difference: not syntactically positive (no equations-back monitor)
@@ -106,7 +128,7 @@ def gen_rate(rng, src, i, shared, to_output=False):
     if r < 0.8:
         return "%d*Q%d/%d" % (rng.randint(2, 5), i, rng.randint(2, 7))
     if r < 0.92:
-        return "VM%d/(KM%d + A_%s(t))" % (i, i, src)
+        return "VM%d/(KM%d + %s)" % (i, i, A)
     return "K%d*exp(-TH%d)" % (i, i)
 
 
@@ -128,6 +150,7 @@ def gen_case(rng: random.Random, tier: str):
     nodose = rng.random() < 0.1
     ops = []
     cnt = [0]
+    amts = {}   # compartment name -> its amount function (as written in rates)
 
     def fresh():
         cnt[0] += 1
@@ -146,6 +169,7 @@ def gen_case(rng: random.Random, tier: str):
             attrs["bio"] = gen_expr_small(rng, "F", fresh())
         if rng.random() < 0.12:
             attrs["amount"] = "X%d(t)" % fresh()   # an amount function not derived from the name
+        amts[nm] = attrs.get("amount", "A_%s(t)" % nm)
         ops.append(["addc", nm, attrs])
     # flows (interleaved order is random: edge insertion order matters to networkx)
     pairs = [(a, b) for a in names for b in names if a != b]
@@ -154,13 +178,13 @@ def gen_case(rng: random.Random, tier: str):
     flows = []
     for a, b in pairs:
         if rng.random() < p_edge:
-            flows.append(["addflow", a, b, gen_rate(rng, a, fresh(), shared)])
+            flows.append(["addflow", a, b, gen_rate(rng, a, fresh(), shared, amts=amts)])
     if selfloops:
         a = rng.choice(names)
         flows.append(["addflow", a, a, "KSELF"])
     nout = rng.choice([0, 1, 1, 1, 1, 2, 2, 3])
     for a in rng.sample(names, min(nout, n)):
-        flows.append(["addflow", a, OUT, gen_rate(rng, a, fresh(), shared, to_output=True)])
+        flows.append(["addflow", a, OUT, gen_rate(rng, a, fresh(), shared, to_output=True, amts=amts)])
     rng.shuffle(flows)
     ops += flows
     # phase 2: edits
@@ -181,7 +205,8 @@ def gen_case(rng: random.Random, tier: str):
                 attrs = {"doses": [gen_dose(rng, fresh())] if rng.random() < 0.4 else [], "input": "0", "lag": "0", "bio": "1"}
                 ops.append(["addc", nm, attrs])
                 live.append(nm)
-                ops.append(["addflow", rng.choice(live), nm, gen_rate(rng, a, fresh(), shared)])
+                amts[nm] = "A_%s(t)" % nm
+                ops.append(["addflow", rng.choice(live), nm, gen_rate(rng, a, fresh(), shared, amts=amts)])
         elif r < 0.14:
             ops.append(["rmc", tgt])
             if not stale:
@@ -189,7 +214,7 @@ def gen_case(rng: random.Random, tier: str):
         elif r < 0.26:
             d = b if rng.random() < 0.8 else OUT
             if d != a or selfloops:
-                ops.append(["addflow", a, d, gen_rate(rng, a, fresh(), shared, to_output=(d == OUT))])
+                ops.append(["addflow", a, d, gen_rate(rng, a, fresh(), shared, to_output=(d == OUT), amts=amts)])
         elif r < 0.36:
             ops.append(["rmflow", tgt, b if rng.random() < 0.75 else OUT])
         elif r < 0.48:
@@ -288,6 +313,10 @@ def worker_init():
     from pharmpy.model import (Bolus, Compartment, CompartmentalSystem, CompartmentalSystemBuilder,  # noqa
                                Infusion, output)
     from pharmpy.model.statements import to_compartmental_system  # noqa
+    global PMatrix, _expand_rates, free_images
+    from pharmpy.basic import Matrix as PMatrix  # noqa
+    from pharmpy.internals.expr.ode import _expand_rates  # noqa
+    from pharmpy.internals.expr.leaves import free_images  # noqa
     from harness.common import exprconv  # noqa
 
 
@@ -378,7 +407,7 @@ def observe_real(cs):
     obs["matrix"] = cs.compartmental_matrix
     obs["amounts"] = list(cs.amounts)
     obs["inputs"] = list(cs.zero_order_inputs)
-    obs["eqs"] = cs.eqs
+    obs["eqs"] = None   # filled in for the monitored steps only (the property is slow: sympy Eq + collect)
     try:
         obs["central"] = cs.central_compartment.name
     except ValueError:
@@ -395,7 +424,15 @@ def sym_of(e):
 
 
 def eq_pts(a, b, rng):
-    return exprconv.equal_at_points(sympy.sympify(a), sympy.sympify(b), rng, npoints=2)
+    a, b = sympy.sympify(a), sympy.sympify(b)
+    if a == b:
+        return True
+    try:
+        if sympy.expand(a - b) == 0:   # cheap and exact; evaluation at points decides the rest
+            return True
+    except Exception:
+        pass
+    return exprconv.equal_at_points(a, b, rng, npoints=2)
 
 
 def compare_obs(step, m, real, rng, k):
@@ -433,7 +470,7 @@ def compare_obs(step, m, real, rng, k):
             b = sym_of(real[key][i])
             if not eq_pts(a, b, rng):
                 k.append(f"step {step}: {key}[{i}]: model {a} code {b}")
-    for i in range(n):
+    for i in range(n if real["eqs"] is not None else 0):
         a = exprconv.from_sexp(mo["eqs"][i])
         b = real["eqs"][i]._sympy_().rhs
         if not eq_pts(a, b, rng):
@@ -488,7 +525,12 @@ def mon_system(step, cs, real, rng, mon, tags, do_des):
     if any(str(c.amount) != f"A_{c.name}(t)" for c in order):
         tags.append("sys:custom-amount")
     t = sym_of(cs.t)
-    flow = lambda a, b: sym_of(cs.get_flow(a, b))  # noqa: E731
+    flows = {(u, v): sym_of(cs.get_flow(u, v)) for u, v in cs._g.edges}
+    for c in order[:2]:   # the "no such flow" answer of get_flow itself, on a few pairs
+        for d in order[:3]:
+            if not cs._g.has_edge(c, d) and cs.get_flow(c, d) != 0:
+                mon.append({"cls": "get-flow-missing-edge", "what": f"step {step}: get_flow({c.name}, {d.name}) = {cs.get_flow(c, d)} without such a flow"})
+    flow = lambda a, b: flows.get((a, b), sympy.Integer(0))  # noqa: E731
     tot = sympy.Integer(0)
     for i, c in enumerate(order):
         ma = sum((sym_of(M[i, j]) * A[j] for j in range(n)), sympy.Integer(0))
@@ -506,6 +548,25 @@ def mon_system(step, cs, real, rng, mon, tags, do_des):
                         f"from get_flow = {sympy.expand(spec)}"})
         tot = tot + ma
     outsum = sum((flow(c, output) * sym_of(c.amount) for c in order), sympy.Integer(0))
+    # the REPORTED equations (after canonical_ode_rhs): each one against the graph, and their total
+    eqtot = sympy.Integer(0)
+    for i, c in enumerate(order):
+        rhs_i = real["eqs"][i]._sympy_().rhs
+        eqtot = eqtot + rhs_i - U[i]
+        if not sl:
+            infl = sum((flow(d, c) * sym_of(d.amount) for d in order), sympy.Integer(0))
+            outf = sum((flow(c, d) for d in order), sympy.Integer(0)) + flow(c, output)
+            if not eq_pts(rhs_i, infl - outf * A[i] + U[i], rng):
+                mon.append({"cls": "eqs-not-inflow-minus-outflow", "what": f"step {step}: reported d{A[i]}/dt = {rhs_i} but inflows - "
+                            f"outflows + input from get_flow = {sympy.expand(infl - outf * A[i] + U[i])}"})
+    if n and not sl and not eq_pts(eqtot, -outsum, rng):
+        mon.append({"cls": "eqs-mass-balance", "what": f"step {step}: the reported equations (inputs aside) sum to {sympy.expand(eqtot)}, "
+                    f"minus the output flows = {sympy.expand(-outsum)}"})
+    if any(sym_of(r).has(*A) for _, _, r in cs._g.edges.data("rate")) if A else False:
+        tags.append("sys:amount-dependent-rate")
+        if any(any(f.is_Pow and f.base in A for f in sympy.preorder_traversal(sympy.expand(real["eqs"][i]._sympy_().rhs)))
+               for i in range(n)):
+            tags.append("sys:eqs-with-power-of-amount")
     if n and not eq_pts(tot, -outsum, rng):
         cls = "self-loop-not-conserved" if sl else "mass-balance"
         mon.append({"cls": cls, "what": f"step {step}: sum of all rates of change without inputs = {sympy.expand(tot)}, "
@@ -735,6 +796,7 @@ def run_case(case, drv):
     idxs = sorted({len(real_steps) - 1} | set(rng.sample(range(len(real_steps)), min(2, len(real_steps)))))
     for i in idxs:
         st, real, cs = real_steps[i]
+        real["eqs"] = cs.eqs
         mon_system(i, cs, real, rng, mon, tags, do_des=(i == len(real_steps) - 1 or rng.random() < 0.5))
     for st, real, cs in real_steps:
         if real["central"] == ["err", "ValueError"]:
@@ -758,7 +820,69 @@ def run_case(case, drv):
                 compare_obs(step, m[1], real, rng, k)
                 if k:
                     break
+            if not k:
+                for i in idxs:
+                    k_collect(i, real_steps[i][2], real_steps[i][1], drv, rng, k, tags)
     return {"k": k, "mon": mon, "tags": tags, "nontrivial": nontrivial}
+
+
+def monomials(expr, syms, do_expand=True):
+    """sum -> [(key, coefficient)] as sympy.collect(expr, syms) forms its keys: for each term the FIRST pattern of `syms`
+    (sorted amount functions) that occurs as a factor with a rational exponent gives the key (that power); every other
+    factor, other amounts included, belongs to the coefficient; no pattern -> key 1"""
+    out = []
+    e = sympy.expand(expr) if do_expand else expr
+    for term in sympy.Add.make_args(e):
+        factors = list(sympy.Mul.make_args(term))
+        key = sympy.Integer(1)
+        for sym in syms:
+            hit = [f for f in factors if f.as_base_exp()[0] == sym and f.as_base_exp()[1].is_Rational]
+            if hit:
+                key = sympy.Mul(*hit)
+                factors = [f for f in factors if f not in hit]
+                break
+        out.append((key, sympy.Mul(*factors)))
+    return out
+
+
+def k_collect(step, cs, real, drv, rng, k, tags):
+    """canonical_ode_rhs = collect(_expand_rates(rhs), amounts).  (1) the terms of _expand_rates(rhs) must have the value of
+    the matrix entry (M*A+u)[i] computed by the harness; (2) the model regroups exactly those monomials by key (key = product
+    of the rational powers of amount functions in a term, as sympy.collect forms it) and its groups are compared, key by
+    key, with the groups read off the top-level terms of the equation the code reports."""
+    n = len(real["names"])
+    if n == 0:
+        return
+    M = real["matrix"]
+    A = [sym_of(a) for a in real["amounts"]]
+    U = [sym_of(u) for u in real["inputs"]]
+    rows = list(cs.compartmental_matrix @ PMatrix(list(cs.amounts)) + cs.zero_order_inputs)   # as `eqs` computes them
+    for i in range(n):
+        entry = sum((sym_of(M[i, j]) * A[j] for j in range(n)), sympy.Integer(0)) + U[i]
+        rhs_in = rows[i]._sympy_()
+        fi = free_images(rhs_in)
+        expanded = _expand_rates(rhs_in, fi)
+        fi = sorted(fi, key=str)
+        ms = monomials(expanded, fi, do_expand=False) if expanded != 0 else []
+        if not eq_pts(sum((key * c for key, c in ms), sympy.Integer(0)), entry, rng):
+            k.append(f"step {step}: the expanded right-hand side {expanded} does not have the value of (M*A+u)[{i}] = {entry}")
+        ans = drv.ask(["collect", [[str(key), ex(c)] for key, c in ms]])
+        model = {}
+        for key, c in ans:
+            model[key] = exprconv.from_sexp(c)
+        if len(model) != len(ans):
+            k.append(f"step {step}: collect: model repeats a key: {[a[0] for a in ans]}")
+        code = {}
+        rhs = real["eqs"][i]._sympy_().rhs
+        for key, c in (monomials(rhs, fi, do_expand=False) if rhs != 0 else []):
+            code[str(key)] = code.get(str(key), sympy.Integer(0)) + c
+        tags.append("q:collect")
+        if len(ms) >= 2 and any(key.is_Pow for key, _ in ms):
+            tags.append("q:collect-power-key-in-sum")
+        for key in sorted(set(model) | set(code)):
+            a, b = model.get(key, sympy.Integer(0)), code.get(key, sympy.Integer(0))
+            if not eq_pts(a, b, rng):
+                k.append(f"step {step}: eqs[{i}] = canonical_ode_rhs(...): coefficient of {key}: model {a} code {b}")
 
 
 def subs_map(which, cs, rng):
